@@ -5,6 +5,7 @@ package main
 
 import (
 	"bytes"
+	"context"
 	"encoding/json"
 	"fmt"
 	"math/big"
@@ -51,8 +52,45 @@ func (h *harness) apiFor(d DefaultCost) *apiWorld {
 	if w, ok := h.apis[d]; ok {
 		return w
 	}
+	w := newAPIWorld(APIConfig{Default: d})
+	h.apis[d] = w
+	return w
+}
+
+// APIConfig is the part of apifu.Config the histories vary.
+type APIConfig struct {
+	Storage  bool        `json:"storage"`  // Config.PersistedQueryStorage (a map)
+	Features bool        `json:"features"` // Config.Features set (returns a fixed feature set)
+	Default  DefaultCost `json:"default"`  // Config.DefaultFieldCost
+}
+
+// mapStorage is a faithful last-write-wins PersistedQueryStorage.
+type mapStorage struct {
+	mu sync.Mutex
+	m  map[string]string
+}
+
+func (s *mapStorage) GetPersistedQuery(ctx context.Context, hash []byte) string {
+	s.mu.Lock()
+	defer s.mu.Unlock()
+	return s.m[string(hash)]
+}
+
+func (s *mapStorage) PersistQuery(ctx context.Context, query string, hash []byte) {
+	s.mu.Lock()
+	defer s.mu.Unlock()
+	s.m[string(hash)] = query
+}
+
+func newAPIWorld(ac APIConfig) *apiWorld {
 	w := &apiWorld{}
-	cfg := &apifu.Config{DefaultFieldCost: d.fieldCost()}
+	cfg := &apifu.Config{DefaultFieldCost: ac.Default.fieldCost()}
+	if ac.Storage {
+		cfg.PersistedQueryStorage = &mapStorage{m: map[string]string{}}
+	}
+	if ac.Features {
+		cfg.Features = func(context.Context) graphql.FeatureSet { return graphql.NewFeatureSet("beta") }
+	}
 	t := makeTypes()
 	for name, def := range makeFields(t.n, t.i) {
 		cfg.AddQueryField(name, def)
@@ -112,7 +150,6 @@ func (h *harness) apiFor(d DefaultCost) *apiWorld {
 		panic(err)
 	}
 	w.api = api
-	h.apis[d] = w
 	return w
 }
 
@@ -266,24 +303,36 @@ func (h *harness) executeOne(c Case, verbose bool) *failure {
 	if panicked != "" {
 		return &failure{"crash", "ServeGraphQL panicked: " + panicked}
 	}
-	// what the variables look like after the JSON round trip
-	cv := c
-	cv.Max = -1
-	cv.Vars = map[string]VarVal{}
-	for k, v := range jsonVars(c.Vars) {
+	return h.judgeServed(w, c, body, verbose)
+}
+
+// roundTripVars: what the variables look like after the JSON round trip of a transport.
+func roundTripVars(vars map[string]VarVal) map[string]VarVal {
+	out := map[string]VarVal{}
+	for k, v := range jsonVars(vars) {
 		switch x := v.(type) {
 		case int64:
-			cv.Vars[k] = VarVal{"float", strconv.FormatInt(x, 10)}
+			out[k] = VarVal{"float", strconv.FormatInt(x, 10)}
 		case float64:
-			cv.Vars[k] = VarVal{"float", strconv.FormatFloat(x, 'g', -1, 64)}
+			out[k] = VarVal{"float", strconv.FormatFloat(x, 'g', -1, 64)}
 		case string:
-			cv.Vars[k] = VarVal{"string", x}
+			out[k] = VarVal{"string", x}
 		case bool:
-			cv.Vars[k] = VarVal{"bool", strconv.FormatBool(x)}
+			out[k] = VarVal{"bool", strconv.FormatBool(x)}
 		case nil:
-			cv.Vars[k] = VarVal{"null", ""}
+			out[k] = VarVal{"null", ""}
 		}
 	}
+	return out
+}
+
+// judgeServed compares what Config.Execute saw for the request just served on w (w.called, w.cost)
+// with the reference cost and the model's `actual` for *this* request's query, operation name and
+// variables.
+func (h *harness) judgeServed(w *apiWorld, c Case, body string, verbose bool) *failure {
+	cv := c
+	cv.Max = -1
+	cv.Vars = roundTripVars(c.Vars)
 	p, skip := h.prepareFor(cv, w.api.Schema())
 	if verbose {
 		fmt.Printf("implementation: Execute called=%v RequestInfo.Cost=%d body=%s\n", w.called, w.cost, body)
